@@ -1,8 +1,10 @@
+pub mod c01;
 pub mod c06;
 pub mod c07;
 pub mod c10;
 pub mod c13;
 pub mod c14;
+pub mod c18;
 pub mod c19;
 pub mod c20;
 pub mod table;
@@ -11,6 +13,7 @@ use crate::common::*;
 
 pub fn run(id: &str, tier: Tier) -> Option<Report> {
     Some(match id {
+        "C01" => c01::run(tier),
         "C06" => {
             let mut rep = Report::new("C06", "model_checking", tier);
             c06::run(tier, &mut rep);
@@ -43,6 +46,7 @@ pub fn run(id: &str, tier: Tier) -> Option<Report> {
         }
         "C13" => c13::run(tier),
         "C14" => c14::run(tier),
+        "C18" => c18::run(tier),
         "C19" => {
             let mut rep = Report::new("C19", "model_checking", tier);
             c19::run(tier, &mut rep);
@@ -56,6 +60,7 @@ pub fn run(id: &str, tier: Tier) -> Option<Report> {
 
 pub fn replay(id: &str, v: &serde_json::Value) -> i32 {
     match id {
+        "C01" => c01::replay(v),
         "C06" => c06::replay(v),
         "C07" => c07::replay(v),
         "C08" => {
@@ -65,6 +70,7 @@ pub fn replay(id: &str, v: &serde_json::Value) -> i32 {
         "C10" => c10::replay(v),
         "C13" => c13::replay(v),
         "C14" => c14::replay(v),
+        "C18" => c18::replay(v),
         "C19" => c19::replay(v),
         "C20" => c20::replay(v),
         _ => {
